@@ -20,7 +20,7 @@ CLAIMED = {
             "Inputs: reference-encoded token lists covering every match length 3..60 and distance class, tokenised payloads, random bytes up to 100 KiB, constant bytes, truncated and bit-flipped streams, and streams needing more than 65221 symbol updates. The consumer is a seeded drain schedule; output must equal the reference decoder byte for byte for every schedule, a capacity error must be raised exactly where the reference stops, and extraction of the same stream as an LZH member of a reference-encoded VOL must write the same bytes. Sampling evidence, not proof.",
             "Trusts sim/models/reflzh.h (classical son/prnt/freq LZHUF form written from the format description; its encoder/decoder pair is self-checked in every payload run). Output for the 0-byte input is not asserted."),
     "C05": ("fault_enumeration", "DESIGN.md 4 (C05), 2.5", "deterministic simulation with exhaustive structure-guided storage-damage enumeration per seeded world: every prefix, field x boundary-value grid, multi-field templates, flips, splices; long-lived archive object vs fresh-object-per-call model; extent oracle on the damaged bytes; sanitizers and I/O-step watchdog",
-            "Each run builds one small valid VOL, CLM or WAV with the independent encoders and then executes ALL its damage variants (every truncation point, every integer field x ~50 boundary values, coordinated multi-field corruptions such as index length + header length raised together or a name terminator overwritten, bit flips, region exchanges). Every damaged archive is opened once and driven through a seeded call sequence; each call is repeated on a freshly opened object and outcome class and value must agree (usable-after-failure); delivered member streams must equal the file bytes at the recorded extent or be refused; crashes, sanitizer reports, non-std exceptions and calls exceeding the I/O step budget are violations. Exhaustive over the enumerated damage of each sampled world, sampling over worlds and call sequences.",
+            "Each run builds one small valid VOL, CLM or WAV with the independent encoders and then executes ALL its damage variants (every truncation point, every integer field x ~50 boundary values, coordinated multi-field corruptions such as index length + header length raised together or a name terminator overwritten, bit flips, region exchanges). Every damaged archive is opened once and driven through a seeded call sequence; each call is repeated on a freshly opened object and outcome class and value must agree (usable-after-failure); delivered member streams must equal the file bytes at the recorded extent or be refused; crashes, sanitizer reports, non-std exceptions and calls exceeding the I/O step budget are violations. One call in five on the long-lived object additionally runs with its k-th allocation failing (std::bad_alloc at an arbitrary point inside the call): whatever that call does, every later call must still agree with a fresh object. Exhaustive over the enumerated damage of each sampled world, sampling over worlds and call sequences.",
             "Byte strings reached are structure-guided damage of valid files, not the full 2^(8n) space and not coverage-guided mutation; ASan/UBSan/_GLIBCXX_ASSERTIONS are the memory/arithmetic oracle; finite memory is simulated by a 32 MiB allocation cap (bad_alloc counts as an ordinary error)."),
     "C06": ("exploration", "DESIGN.md 4 (C06)", "seeded deterministic simulation through the stream seam: reference-encoded maps read on memory/file/file-slice/SimReader backends with consumed-byte accounting, rewritten and compared with the independent MAP codec, then seeded edit histories mirrored on the model",
             "Seeded well-formed maps from an independent encoder (log-width 0..10, heights 0..64, arbitrary tile words, 0..6 tileset sources with empty and non-empty names, mapping/terrain/group tables incl. zero-area groups, arbitrary saved-game flag and version tags, optional trailing junk) are read through four reader backends under short reads/EINTR; every field is compared with the reference decode, the bytes consumed are counted at the seam (trailing bytes untouched), the rewrite must equal the consumed bytes up to the two documented normalisations and be byte-stable, and after every seeded edit history (cell type, lava-possible, version tag, trim) the written bytes must equal the model's encoding. The success path has no fault space of its own; the seams contribute consumption accounting, backend agreement and transparent I/O faults. Sampling evidence, not proof.",
@@ -44,7 +44,7 @@ CLAIMED = {
             "Seeded search over operation histories (reads, partial reads, peeks, seeks, typed helpers) on memory readers, memory slices, file slices and nested slices; every step is compared with a reference cursor model, destination buffers are exactly sized heap blocks under ASan, refused operations are checked for atomicity on the following steps. Sampling evidence, not proof.",
             "Trusts the reference model in sim/scen/stream_actors.cpp and ASan/UBSan/_GLIBCXX_ASSERTIONS for memory errors; file-backed actors run over real libstdc++ filebuf on tmpfs with injected short reads and EINTR."),
     "C13": ("exploration", "DESIGN.md 4 (C13), 2.3", "seeded deterministic simulation: interleaved reader/slice/copy actors over one source under a seeded scheduler, per-actor reference model checked after every step on five backends",
-            "Seeded scheduler picks the acting object at every step among up to 10 live readers, slices, nested slices and copies sharing one source (memory, file, slice of either, slice of slice); after every step every live actor's position and length must match its model; slice creation outcomes incl. wrap-around parameters and parent movement are checked. Sampling evidence, not proof.",
+            "Seeded scheduler picks the acting object at every step among up to 10 live readers, slices, nested slices and copies sharing one source (memory, file, slice of either, slice of slice); after every step every live actor's position and length must match its model; slice creation outcomes incl. wrap-around parameters and parent movement are checked. A second family (archive-streams) uses reference-encoded VOL/CLM archives: member streams opened from TWO archive objects on the same file, slices and copies of them, and listing/lookup/OpenStream/ExtractFile calls on either archive object are interleaved by the scheduler, and every live stream must still match its own history after every step. Sampling evidence, not proof.",
             "Trusts the per-actor reference model; independence is observed through Position()/Length() of every actor after every step plus the bytes each later read delivers."),
     "C14": ("exploration", "DESIGN.md 4 (C14)", "seeded deterministic simulation: writer histories vs content model with guard zones; chunked stream-copy matrix over reader backends under short reads/writes and EINTR; FileWriter open-flag matrix checked on the durable bytes of the simulated disk",
             "Three scenario families: (a) MemoryWriter inside ASan-poisoned, sentinel-filled guard zones and DynamicMemoryWriter, driven by seeded histories of writes, typed writes and seeks with boundary/wrap arguments against a content model, plus typed write->typed read inverse and size-prefix limits 127/128, 255/256, 32767/32768, 65535/65536; (b) Writer::Write<Chunk>(Reader&) for nine chunk sizes x source lengths around chunk multiples x start positions x four reader backends x memory/file destinations; (c) all 16 open-flag subsets x {exists, absent} with the disk inspected after close. Sampling evidence, not proof.",
@@ -53,7 +53,7 @@ CLAIMED = {
             "Seeded layouts (0..4 loose files, sub-directories incl. ones named *.vol / *.clm, 0..5 archives with members drawn from a shared name pool in several letter cases) are queried through ResourceManager (GetResourceStream with and without archive access, rooted paths, type and pattern listings, FindContainingArchivePath, GetArchiveFilenames) and through each archive object (Contains/GetIndex agreement, case- and './'-blindness, GetIndex(GetName(i)) = i, out-of-range indices on every per-member call). The order in which the directory lists entries - which decides archive load order - is permuted per run at the readdir seam; where the property leaves a choice (which archive serves a duplicated name) any allowed answer is accepted. Sampling evidence, not proof.",
             "Type listings are not compared in worlds where a loose file's extension matches the query only in another letter case (property silent); pattern queries are letter-only literals so they cannot match the directory part of a path."),
     "C18": ("exploration", "DESIGN.md 4 (C18)", "seeded deterministic simulation, twin-environment differential: every serialising/parsing scenario executed twice in one process under environments differing in heap fill, stack fill, heap shift, input order, path spelling, readdir order and I/O chunking; outputs and canonical parse dumps must be identical",
-            "Each run executes 2..5 scenarios (objects from the library's own constructors and factories written out; VOL and CLM creation incl. extracted WAVs; map, bitmap, custom tileset and PRT read + rewrite) twice: the allocator seam fills fresh heap memory with a different byte, the stack is scribbled with a different byte before every library call, junk allocations shift heap addresses, the input list is permuted and spelled differently, the directory lists in another order and short-read/short-write/EINTR configurations differ. Every output byte string and every canonical dump of a parsed structure must be equal between the two passes. Sampling evidence, not proof.",
+            "Each run executes 2..5 scenarios (objects from the library's own constructors and factories written out; VOL and CLM creation incl. extracted WAVs; map, bitmap, custom tileset and PRT read + rewrite) twice: the allocator seam fills fresh heap memory with a different byte, the stack is scribbled with a different byte before every library call, junk allocations shift heap addresses, the input list is permuted and spelled differently, the directory lists in another order and short-read/short-write/EINTR configurations differ. Every output byte string and every canonical dump of a parsed structure must be equal between the two passes. The thorough tier adds a definedness lane: 300 of the same plans run in an uninstrumented g++ -O2 build (other compiler, optimisation level and frame layout) with the allocator fill and stack scribbling switched off, under valgrind memcheck; a reproducible memcheck error is a violation (C18.defined). Sampling evidence, not proof.",
             "Detects dependence on stale memory only when it changes an output or a dumped field; objects are heap-allocated so that the allocator seam controls their initial bytes; a default-initialised (not value-initialised) aggregate ArtFile is the caller's choice and is not asserted."),
     "C20": ("fault_enumeration", "DESIGN.md 4 (C20)", "deterministic simulation on a simulated disk with sparse multi-GiB inputs and sink outputs: exhaustive enumeration of the finite list of at-limit and beyond-limit quantities x {destination absent, pre-existing}, refusal and destination-snapshot oracle",
             "The finite case list (VOL members of 2^31, 2^31+1, 2^32-1, 2^32, 2^32+5 bytes; member sets whose last block offset crosses 2^32; WAV sets whose last data offset crosses 2^32; CLM names of 9 and 12 characters; containers of 128/256/300/32768/65536/70000 elements against 8/16-bit signed and unsigned prefixes; every layer-list length 0..130 against every 7-bit count) is enumerated completely in both tiers, each case with the destination absent and pre-existing; sparse files and a write sink at the libc seam make 2-5 GiB inputs cost no disk blocks. Oracle: does not fit => exception; for VOL the disk snapshot before = after. The seed only varies names, order and transparent faults.",
